@@ -67,6 +67,10 @@ TABLE = {
     "vex-vnni-mem": "c4 e2 6d 50 5c 88 10",
     "tail-62": "62",                        # `.byte 0x62` when it ends the section
     "rex-alone": "40",
+    # segment override + base/index/scale + EVEX decoration in ONE operand: %fs:0x1(%rax,%rbx,1){%k1}, %gs:(%rax,%rbx,4){1to16}
+    "fs-evex-mask-disp": "64 62 f1 7f 49 7f 44 18 01",
+    "fs-evex-mask-store": "64 62 f1 7c 49 11 0c 98",
+    "gs-evex-bcast": "65 62 f1 7c 58 58 04 98",
 }
 TABLE = {k: bytes.fromhex(v) for k, v in TABLE.items()}
 
